@@ -15,6 +15,13 @@
 //! runtime, so NO waiting is done here: the flock probe is taken the instant `drop` returns (kept for
 //! `lk dropprobe`) and must already say `free`.  The opener's own runtime is kept until `lk rtgone`; its
 //! shutdown must change nothing any more.
+//!
+//! Operations of a LIVE store that rewrite its directory: `lk ckpt <i>` / `lk pckpt <p>` (create_checkpoint into the
+//! side directory `<tmp>/ckpt`, next to — not inside — the database directory; one per script, replaced by each
+//! checkpoint) and `lk restore <i>` / `lk prestore <p>` (restore_from_checkpoint from it; `nockpt` without calling the
+//! store if there is none).  The lock is an flock on the INODE that the name `<dir>/LOCK` denotes: every successful
+//! open records the inode number of LOCK, `lk lockid <i>` / `lk plockid <p>` compare it with what the name denotes
+//! now (`same` / `changed` / `absent`).
 use crate::util::*;
 use std::collections::BTreeMap;
 use std::io::{BufRead, BufReader, Read, Write};
@@ -26,12 +33,69 @@ use surrealkv::{Options, Tree, TreeBuilder};
 struct Opener {
     rt: tokio::runtime::Runtime,
     tree: Tree,
+    /// inode number of `<dir>/LOCK` right after the open succeeded
+    lock_ino: Option<u64>,
 }
 
 struct Kid {
     child: Child,
     stdin: ChildStdin,
     stdout: BufReader<ChildStdout>,
+    lock_ino: Option<u64>,
+}
+
+fn ino_of(p: &Path) -> Option<u64> {
+    use std::os::unix::fs::MetadataExt;
+    std::fs::metadata(p).ok().map(|m| m.ino())
+}
+
+/// A flush (create_checkpoint flushes the memtables; a restore may flush while it replays the WAL) spawns the removal
+/// of the WAL segments it made obsolete as a task of its own on the store's runtime.  The directory is compared byte
+/// for byte after every operation, so that task must be over before the operation is answered: wait until the runtime
+/// has no more live tasks than before the call (the store's long-running background tasks).
+fn settle(rt: &tokio::runtime::Runtime, before: usize) -> bool {
+    let t0 = Instant::now();
+    while rt.metrics().num_alive_tasks() > before {
+        if t0.elapsed() > Duration::from_secs(20) {
+            return false;
+        }
+        std::thread::sleep(Duration::from_micros(200));
+    }
+    true
+}
+
+fn ckpt_on(rt: &tokio::runtime::Runtime, tree: &Tree, dir: &Path) -> String {
+    let _ = std::fs::remove_dir_all(dir);
+    let before = rt.metrics().num_alive_tasks();
+    let r = {
+        let _g = rt.enter();
+        tree.create_checkpoint(dir)
+    };
+    if !settle(rt, before) {
+        return "err:background-tasks-did-not-settle".into();
+    }
+    match r {
+        Ok(_) => "ok".into(),
+        Err(e) => format!("err:{}", crate::e2::err_name(&e)),
+    }
+}
+
+fn restore_on(rt: &tokio::runtime::Runtime, tree: &Tree, dir: &Path) -> String {
+    if !dir.join("CHECKPOINT_METADATA").exists() {
+        return "nockpt".into();
+    }
+    let before = rt.metrics().num_alive_tasks();
+    let r = {
+        let _g = rt.enter();
+        tree.restore_from_checkpoint(dir)
+    };
+    if !settle(rt, before) {
+        return "err:background-tasks-did-not-settle".into();
+    }
+    match r {
+        Ok(_) => "ok".into(),
+        Err(e) => format!("err:{}", crate::e2::err_name(&e)),
+    }
 }
 
 pub struct Lk {
@@ -153,6 +217,16 @@ impl Lk {
     fn path(&self) -> PathBuf {
         self.dir.path().join("db")
     }
+    fn ckpt_dir(&self) -> PathBuf {
+        self.dir.path().join("ckpt")
+    }
+    fn lock_identity(&self, recorded: Option<u64>) -> String {
+        match (ino_of(&self.path().join("LOCK")), recorded) {
+            (None, _) => "absent".into(),
+            (Some(now), Some(then)) if now == then => "same".into(),
+            _ => "changed".into(),
+        }
+    }
     fn lock_label(&self) -> (String, String) {
         match std::fs::read(self.path().join("LOCK")) {
             Err(_) => ("absent".into(), "-".into()),
@@ -230,7 +304,7 @@ impl Lk {
             rt.shutdown_timeout(Duration::from_secs(5));
         }
         for (_, o) in std::mem::take(&mut self.openers) {
-            let Opener { rt, tree } = o;
+            let Opener { rt, tree, .. } = o;
             let _ = rt.block_on(tree.close());
             drop(tree);
             rt.shutdown_timeout(Duration::from_secs(5));
@@ -253,7 +327,8 @@ impl Lk {
                 };
                 match r {
                     Ok(tree) => {
-                        self.openers.insert(n, Opener { rt, tree });
+                        let lock_ino = ino_of(&self.path().join("LOCK"));
+                        self.openers.insert(n, Opener { rt, tree, lock_ino });
                         "ok".into()
                     }
                     Err(e) => {
@@ -273,7 +348,7 @@ impl Lk {
             },
             ["drop", i] => match self.openers.remove(&i.parse().unwrap()) {
                 None => "noop".into(),
-                Some(Opener { rt, tree }) => {
+                Some(Opener { rt, tree, .. }) => {
                     {
                         let _g = rt.enter();
                         drop(tree); // Tree::drop spawns Core::close on rt
@@ -293,7 +368,7 @@ impl Lk {
             // `rtgone` (before the repair the store's background tasks on it kept the lock: finding F28).
             ["dropout", i] => match self.openers.remove(&i.parse().unwrap()) {
                 None => "noop".into(),
-                Some(Opener { rt, tree }) => {
+                Some(Opener { rt, tree, .. }) => {
                     drop(tree);
                     self.drop_probe = self.holder();
                     self.zombies.insert(i.parse().unwrap(), rt);
@@ -346,11 +421,12 @@ impl Lk {
                 self.pids.insert(child.id(), format!("P{}", n));
                 let stdin = child.stdin.take().unwrap();
                 let stdout = BufReader::new(child.stdout.take().unwrap());
-                let mut k = Kid { child, stdin, stdout };
+                let mut k = Kid { child, stdin, stdout, lock_ino: None };
                 let mut s = String::new();
                 let _ = k.stdout.read_line(&mut s);
                 let s = s.trim_end().to_string();
                 if s == "ok" {
+                    k.lock_ino = ino_of(&self.path().join("LOCK"));
                     self.kids.insert(n, k);
                 } else {
                     // a refused child has already left; reap it
@@ -362,6 +438,38 @@ impl Lk {
                     s
                 }
             }
+            // operations of a live store that rewrite its directory
+            ["ckpt", i] => match self.openers.get(&i.parse().unwrap()) {
+                None => "noop".into(),
+                Some(o) => ckpt_on(&o.rt, &o.tree, &self.ckpt_dir()),
+            },
+            ["restore", i] => match self.openers.get(&i.parse().unwrap()) {
+                None => "noop".into(),
+                Some(o) => restore_on(&o.rt, &o.tree, &self.ckpt_dir()),
+            },
+            ["pckpt", p] => {
+                let d = self.ckpt_dir();
+                match self.kids.get_mut(&p.parse().unwrap()) {
+                    None => "noop".into(),
+                    Some(kid) => Self::kid_cmd(kid, &format!("ckpt {}", d.display())),
+                }
+            }
+            ["prestore", p] => {
+                let d = self.ckpt_dir();
+                match self.kids.get_mut(&p.parse().unwrap()) {
+                    None => "noop".into(),
+                    Some(kid) => Self::kid_cmd(kid, &format!("restore {}", d.display())),
+                }
+            }
+            // is the inode that the name LOCK denotes now the one this opener found / created when it opened?
+            ["lockid", i] => match self.openers.get(&i.parse().unwrap()) {
+                None => "noop".into(),
+                Some(o) => self.lock_identity(o.lock_ino),
+            },
+            ["plockid", p] => match self.kids.get(&p.parse().unwrap()) {
+                None => "noop".into(),
+                Some(k) => self.lock_identity(k.lock_ino),
+            },
             ["pcommit", p, k, v] => match self.kids.get_mut(&p.parse().unwrap()) {
                 None => "noop".into(),
                 Some(kid) => Self::kid_cmd(kid, &format!("commit {} {}", k, v)),
@@ -407,7 +515,7 @@ impl Drop for Lk {
 }
 
 /// child mode: `verif-harness lk-child <dir> <opt>`: open the directory, answer on stdout, then
-/// serve `commit k v` / `get k` / `close` (close the store, then leave) / `drop` (drop the Tree inside
+/// serve `commit k v` / `get k` / `ckpt dir` / `restore dir` / `close` (close the store, then leave) / `drop` (drop the Tree inside
 /// the runtime, wait until the spawned close has finished, then leave) / `exit` (leave the process
 /// with the store open, no close) from stdin.  Killed by the parent for `pkill`.
 pub fn child_main(dir: &str, opt: &str) {
@@ -443,6 +551,8 @@ pub fn child_main(dir: &str, opt: &str) {
         match t.as_slice() {
             ["commit", k, v] => say(&commit_on(&rt, tree.as_ref().unwrap(), k, v)),
             ["get", k] => say(&get_on(&rt, tree.as_ref().unwrap(), k)),
+            ["ckpt", d] => say(&ckpt_on(&rt, tree.as_ref().unwrap(), Path::new(d))),
+            ["restore", d] => say(&restore_on(&rt, tree.as_ref().unwrap(), Path::new(d))),
             ["close"] => {
                 let r = rt.block_on(tree.as_ref().unwrap().close());
                 say(&match r {
